@@ -590,6 +590,18 @@ def ob_load(et, kind, seed):
         if abs(abs(R[0]) - p * area * th) > tol * p * area * th or np.abs(R[1:]).max() > tol * p * area * th:
             raise Refuted(f"{et} pressure on the planar face x=L: resultant {R.tolist()}, expected magnitude {p*area*th:.12g} along the face normal (x)",
                           cex=dict(elemType=et), signature="load:pressure", replay=dict(confirmed=True, resultant=R.tolist()))
+        # the pressure handed over as a 0-d / 1-element array (the value of a load history): it is the caller's, applying the load again gives the same resultant
+        for parr in (np.array(p), np.array([p])):
+            for rep in range(2):
+                simu = _simu(mesh, th)
+                simu.add_pressureLoad(nodes_face, parr)
+                f, co = _resultants(simu, dim)
+                R = f.sum(axis=0)
+                n += 1
+                if float(np.ravel(parr)[0]) != p or abs(abs(R[0]) - p * area * th) > tol * p * area * th:
+                    raise Refuted(f"{et} pressure given as a numpy array of shape {parr.shape}, application #{rep + 1}: resultant {R.tolist()}, expected magnitude {p*area*th:.12g}; the caller's "
+                                  f"array now holds {np.ravel(parr).tolist()} (given {p})", cex=dict(elemType=et, pressure_shape=list(parr.shape), application=rep + 1), signature="load:pressure:array",
+                                  replay=dict(confirmed=True, resultant=R.tolist(), callers_value=np.ravel(parr).tolist()))
     else:
         raise ValueError(kind)
     return Verdict(DISCHARGED, backend="native run of the real load integration on a gmsh mesh vs closed-form integrals (1e-10)", sub=n)
